@@ -51,7 +51,9 @@ m("C02", "operators/first.py", "                    i.store.add_key(state, i.key
 m("C02", "data/roll.py", "i.store.add_key(state_w, (i.key[0]*density+offset, i.key))", "i.store.add_key(state_w, (i.key[0]+offset, i.key))", "fire", ["ST-3", "ST-6"])
 m("C02", "data/roll.py", "                        index = i.key[0] * density + offset\n                        i.store.set_state(state_w, (index, i.key), n)", "                        index = i.key[0] + offset\n                        i.store.set_state(state_w, (index, i.key), n)", "fire", ["ST-3", "ST-6"])
 m("C02", "operators/scan.py", "                    i.store.add_key(state, i.key)\n                    observer.on_next(i)", "                    if seed is not None:\n                        i.store.add_key(state, i.key)\n                    observer.on_next(i)", "fire", ["ST-2"])
-m("C02", "operators/tee_map.py", "                        for index in range(n):\n                            queue[base_index+index] = None\n                            has_next[base_index+index] = False\n                return", "                        queue[base_index+i] = None\n                        has_next[base_index+i] = False\n                return", "fire", ["ST-5"], "the repaired defect")
+m("C02", "operators/tee_map.py", "                        # a lifetime ended by an error leaves values behind\n                        base_index = x.key[0] * n\n                        for index in range(n):\n                            queue[base_index+index] = None\n                            has_next[base_index+index] = False\n                    observer.on_next(x)", "                    observer.on_next(x)", "fire", ["ST-5"], "re-introduces the repaired defect 4dc75fc: the join slots of a key are cleared at completion only, a lifetime ended by a mux error leaks into the next")
+m("C02", "operators/tee_map.py", "                            queue[base_index+index] = None\n                            has_next[base_index+index] = False\n                return", "                            queue[base_index+index] = None\n                            has_next[index] = False\n                return", "fire", ["ST-5"], "a reset that lands in the slots of key 0 (seeded change C02d, still a defect after 4dc75fc)")
+m("C02", "operators/tee_map.py", "                        for index in range(n):\n                            queue[base_index+index] = None\n                            has_next[base_index+index] = False\n                return", "                        queue[base_index+i] = None\n                        has_next[base_index+i] = False\n                return", "silent", [], "the defect repaired first (completion cleared one slot only) is harmless since 4dc75fc: the slots are cleared again when the key index is created")
 m("C02", "operators/last.py", "            state = None\n\n            def on_next(i):\n                nonlocal state\n\n                if type(i) is rs.OnNextMux:\n                    i.store.set_state(state, i.key, i.item)", "            state = None\n            last_item = [None]\n\n            def on_next(i):\n                nonlocal state\n\n                if type(i) is rs.OnNextMux:\n                    last_item[0] = i.item\n                    i.store.set_state(state, i.key, i.item)", "fire", ["ST-1"])
 m("C02", "operators/take.py", "                    observer.on_next(i)\n                    i.store.del_key(state, i.key)", "                    i.store.del_key(state, i.key)\n                    observer.on_next(i)", "silent", note="release before forwarding")
 m("C02", "operators/first.py", "                    value = i.store.get_state(state, i.key)\n                    if value is False:", "                    seen = i.store.get_state(state, i.key)\n                    if seen is False:", "silent", note="renamed local")
@@ -96,7 +98,7 @@ m("C05", "data/roll.py", "                            count = n - w_value + 1\n 
 m("C05", "data/roll.py", "                    if count == 0:\n                        observer.on_next(rs.OnCreateMux((i.key[0], i.key), i.store))", "                    if count < 1:\n                        observer.on_next(rs.OnCreateMux((i.key[0], i.key), i.store))", "silent")
 # ---------------------------------------------------------------- C06
 m('C06', 'data/split.py', "                    else:\n                        # the next item is compared with this one, not\n                        # with the first item of the segment\n                        i.store.set_state(state, i.key, new_predicate)\n", "", 'fire', ['DP-4'], 're-introduces the repaired defect d2134d9: the stored predicate is that of the first item of the segment')
-m('C06', 'data/split.py', "                    elif new_predicate != current_predicate:\n                        i.store.set_state(state, i.key, new_predicate)\n                        observer.on_next(rs.OnCompletedMux((i.key[0], i.key), i.store))\n                        observer.on_next(rs.OnCreateMux((i.key[0], i.key), i.store))\n\n                    else:\n                        # the next item is compared with this one, not\n                        # with the first item of the segment\n                        i.store.set_state(state, i.key, new_predicate)\n", "                    elif new_predicate != current_predicate:\n                        observer.on_next(rs.OnCompletedMux((i.key[0], i.key), i.store))\n                        observer.on_next(rs.OnCreateMux((i.key[0], i.key), i.store))\n\n                    i.store.set_state(state, i.key, new_predicate)\n", 'silent', [], 'one unconditional store of the new predicate after the boundary events')
+m('C06', 'data/split.py', "                    elif new_predicate != current_predicate:\n                        i.store.set_state(state, i.key, new_predicate)\n                        observer.on_next(rs.OnCompletedMux((i.key[0], i.key), i.store))\n                        observer.on_next(rs.OnCreateMux((i.key[0], i.key), i.store))\n\n                    else:\n                        # the next item is compared with this one, not\n                        # with the first item of the segment\n                        i.store.set_state(state, i.key, new_predicate)\n", "                    elif new_predicate != current_predicate:\n                        observer.on_next(rs.OnCompletedMux((i.key[0], i.key), i.store))\n                        observer.on_next(rs.OnCreateMux((i.key[0], i.key), i.store))\n\n                    i.store.set_state(state, i.key, new_predicate)\n", 'fire', ['DP-4'], 'one store of the new predicate after the boundary events: since round p a defect (seeded change C03p: a stage of the segment that raises through split leaves the old predicate behind), no longer an equivalent form')
 m("C06", "data/split.py", "                    elif new_predicate != current_predicate:", "                    if new_predicate != current_predicate:", "fire", ["DP-4"], "the split defect repaired by c14a7d7, re-introduced (first item compared with itself)")
 m("C06", "data/split.py", "if new_predicate != current_predicate:", "if new_predicate is not current_predicate:", "fire", ["EQ-1", "DP-4"])
 m("C06", "data/split.py", "                    elif new_predicate != current_predicate:\n                        i.store.set_state(state, i.key, new_predicate)", "                    elif new_predicate != current_predicate:\n                        i.store.set_state(state, i.key, current_predicate)", "fire", ["DP-4"])
@@ -138,7 +140,7 @@ m("C09", "operators/scan.py", "                            value = seed() if cal
 m("C09", "operators/scan.py", "                            value = seed() if callable(seed) else copy.deepcopy(seed)\n                        acc = accumulator(value, i.item)", "                            value = seed() if callable(seed) else seed\n                        acc = accumulator(value, i.item)", "fire", ["SD-1"])
 m("C09", "operators/scan.py", "                    if reduce is True:\n                        value = i.store.get_state(state, i.key)\n                        if value is rs.state.markers.STATE_NOTSET:\n                            value = seed() if callable(seed) else copy.deepcopy(seed)\n                        observer.on_next(rs.OnNextMux(i.key, value, i.store))", "                    if reduce is True:\n                        value = i.store.get_state(state, i.key)\n                        if value is not rs.state.markers.STATE_NOTSET:\n                            observer.on_next(rs.OnNextMux(i.key, value, i.store))", "fire", ["SC-1", "AG-3"], "no seed emitted for an empty key")
 m("C09", "math/formal/variance.py", "            v = _moment(acc, mean, 2)\n            return v", "            v = _moment(acc, mean, 2)\n            acc.clear()\n            return v", "fire", ["PU-1"], "the repaired defect")
-m("C09", "operators/scan.py", "                        acc = accumulator(value, i.item)\n                        i.store.set_state(state, i.key, acc)\n                        if reduce is False:\n                            observer.on_next(rs.OnNextMux(i.key, acc, i.store))", "                        acc = accumulator(value, i.item)\n                        if reduce is False:\n                            observer.on_next(rs.OnNextMux(i.key, acc, i.store))\n                        i.store.set_state(state, i.key, acc)", "silent", note="store/emit commute")
+m("C09", "operators/scan.py", "                        acc = accumulator(value, i.item)\n                        i.store.set_state(state, i.key, acc)\n                        if reduce is False:\n                            observer.on_next(rs.OnNextMux(i.key, acc, i.store))", "                        acc = accumulator(value, i.item)\n                        if reduce is False:\n                            observer.on_next(rs.OnNextMux(i.key, acc, i.store))\n                        i.store.set_state(state, i.key, acc)", "fire", ["SC-1"], "the value emitted before it is written back: since round p a defect (seeded change C12p: a raising stage downstream, or a re-entrant push, sees the old accumulator), no longer an equivalent form")
 m("C09", "operators/scan.py", "                if type(i) is rs.OnNextMux:\n                    try:\n                        value = i.store.get_state(state, i.key)", "                if isinstance(i, rs.OnNextMux):\n                    try:\n                        value = i.store.get_state(state, i.key)", "silent")
 # ---------------------------------------------------------------- C10
 m('C10', 'operators/first.py', "            return first_mux()(source)\n        else:\n            return ops.first()(source)\n", "            return first_mux()(source)\n", 'fire', ['GEN-3'], 'mutation round 4: first() has no plain arm left (returns None)')
@@ -278,7 +280,7 @@ m("C19", "container/json.py", "        'gzip': rs.compression.z.decompress,\n   
 m("C19", "container/json.py", "                rs.data.decode(encoding),\n                line.unframe(),\n                load(skip=skip, ignore_error=ignore_error),\n        )\n    else:", "                line.unframe(),\n                rs.data.decode(encoding),\n                load(skip=skip, ignore_error=ignore_error),\n        )\n    else:", "fire", ["AG-7"])
 # ---------------------------------------------------------------- round l / mutation round 5 (language-level traps)
 m('C06', 'data/split.py', "    pipeline = rx.pipe(*pipeline) if type(pipeline) is list else pipeline\n", "    if type(pipeline) is list:\n        pipeline.reverse()\n    pipeline = rx.pipe(*pipeline) if type(pipeline) is list else pipeline\n", 'fire', ['ARG-1'], "the caller's stage list reversed in place")
-m('C06', 'data/split.py', "    pipeline = rx.pipe(*pipeline) if type(pipeline) is list else pipeline\n", "    if type(pipeline) is list:\n        pipeline = list(reversed(pipeline))\n        pipeline.reverse()\n    pipeline = rx.pipe(*pipeline) if type(pipeline) is list else pipeline\n", 'silent', [], "a copy is the factory's own: mutating it is not ARG-1's business")
+m('C06', 'data/split.py', "    pipeline = rx.pipe(*pipeline) if type(pipeline) is list else pipeline\n", "    if type(pipeline) is list:\n        pipeline = list(pipeline)\n        pipeline.reverse()\n        pipeline.reverse()\n    pipeline = rx.pipe(*pipeline) if type(pipeline) is list else pipeline\n", 'silent', [], "a copy is the factory's own: mutating it is not ARG-1's business")
 m('C10', 'data/pad.py', "    return pad_start_mux(size, value)\n", "    if value is not None:\n        return rs.ops.start_with(iter([value] * size))\n    return pad_start_mux(size, value)\n", 'fire', ['GEN-1'], 'seed C10l in short: a one-shot iterator handed to start_with')
 m('C10', 'data/pad.py', "    return pad_start_mux(size, value)\n", "    if value is not None:\n        return rs.ops.start_with([value] * size)\n    return pad_start_mux(size, value)\n", 'silent', [], 'a list can be walked once per key')
 m('C10', 'operators/first.py', "            return ops.first()(source)", "            return ops.first()(rx.empty())", 'fire', ['AG-1'], 'mutation round 5: the plain arm does not work on its source')
